@@ -171,9 +171,12 @@ class CFG(object):
 
     def between(self, a, b, skip_kinds=()):
         """nodes on some path a -> ... -> b (exclusive), ignoring skip_kinds edges."""
-        fwd = self._closure(a, lambda n: [m for k, m in n.succ if k not in skip_kinds])
-        bwd = self._closure(b, lambda n: [m for k, m in n.pred if k not in skip_kinds])
-        return [n for n in self.nodes if n.id in fwd and n.id in bwd and n.id not in (a.id, b.id)]
+        # a dominates b in all uses: the relevant segment runs from the *last* visit of a to b,
+        # so paths must not pass through a (or b) again
+        stop = (a.id, b.id)
+        fwd = self._closure(a, lambda n: [m for k, m in n.succ if k not in skip_kinds and (n.id == a.id or n.id not in stop)])
+        bwd = self._closure(b, lambda n: [m for k, m in n.pred if k not in skip_kinds and (n.id == b.id or n.id not in stop)])
+        return [n for n in self.nodes if n.id in fwd and n.id in bwd and n.id not in stop]
 
     @staticmethod
     def _closure(start, nxt):
